@@ -72,7 +72,7 @@ fn plan(prop: &str, tier: &str) -> Plan {
     Plan {
         runs: env_u64("SYLT_SIM_RUNS", runs),
         audit_runs: env_u64("SYLT_SIM_AUDIT_RUNS", audit_runs),
-        hang_cpu_s: if quick { 20 } else { 60 },
+        hang_cpu_s: if quick { 10 } else { 30 },
     }
 }
 
@@ -304,6 +304,25 @@ fn required_probes(prop: &str) -> &'static [&'static str] {
     }
 }
 
+static AUDIT_FIRST_MISMATCH: std::sync::atomic::AtomicU64 = std::sync::atomic::AtomicU64::new(u64::MAX);
+
+fn audit_violation_doc(prop: &str, batch_seed: u64, index: u64) -> J {
+    let (c, _, trace, fam) = worker_scenario(prop, batch_seed, index);
+    J::obj()
+        .set("property", J::s(prop))
+        .set("clause", J::s("history"))
+        .set("class", J::s("previous-compilations-in-process"))
+        .set("detail", J::s(&format!("run {} produced a different history in a 16-worker batch than in a 5-worker batch: the result of a compilation depends on what the same thread compiled before", index)))
+        .set("verif_seed", J::u(batch_seed))
+        .set("index", J::u(index))
+        .set("minimised", J::Bool(false))
+        .set("scenario", c.to_json())
+        .set("original_fault_trace", trace)
+        .set("original_family", J::s(&fam))
+        .set("extra", J::obj().set("audit_history", J::obj().set("verif_seed", J::u(batch_seed)).set("index", J::u(index))))
+        .set("history", J::Arr(vec![]))
+}
+
 fn run_audit(prop: &str, batch_seed: u64, n: u64, hang: u64) -> (u64, u64, u64) {
     let a = run_batch(&BatchCfg { prop: prop.into(), batch_seed, start: 0, end: n, workers: 16, audit: true, hang_cpu_s: hang, tag: "auditA".into() });
     let b = run_batch(&BatchCfg { prop: prop.into(), batch_seed, start: 0, end: n, workers: 5, audit: true, hang_cpu_s: hang, tag: "auditB".into() });
@@ -315,6 +334,9 @@ fn run_audit(prop: &str, batch_seed: u64, n: u64, hang: u64) -> (u64, u64, u64) 
                 if x != y {
                     if mismatches < 5 {
                         println!("AUDIT-MISMATCH index={} 16-workers={:?} 5-workers={:?}", i, x, y);
+                    }
+                    if mismatches == 0 {
+                        AUDIT_FIRST_MISMATCH.store(i, std::sync::atomic::Ordering::SeqCst);
                     }
                     mismatches += 1;
                 }
@@ -341,22 +363,42 @@ fn check_main(prop: &str, tier: &str) -> i32 {
         hang_cpu_s: p.hang_cpu_s,
         tag: "main".into(),
     });
-    let audit = if p.audit_runs > 0 { Some(run_audit(prop, batch_seed, p.audit_runs, p.hang_cpu_s)) } else { None };
+    let mut audit = if p.audit_runs > 0 { Some(run_audit(prop, batch_seed, p.audit_runs, p.hang_cpu_s)) } else { None };
     let mut extra_cov = J::obj();
     let mut extra_viol = Vec::new();
+    let mut audit_viol: Vec<(String, J, u64)> = Vec::new();
+    if prop == "C16" {
+        // for C16 a history-dependent result is not a harness problem: it is the property failing
+        if let Some((n, mism, missing)) = audit {
+            if mism > 0 {
+                let first = AUDIT_FIRST_MISMATCH.load(std::sync::atomic::Ordering::SeqCst);
+                audit_viol.push(("history/previous-compilations-in-process".into(), audit_violation_doc(prop, batch_seed, first), mism));
+                audit = Some((n, 0, missing));
+                extra_cov.put("determinism_audit_mismatches_reported_as_violation", J::u(mism));
+            }
+        }
+    }
     match prop {
         "C20" => {
             let r = layerb::run_c20(tier, batch_seed);
             extra_cov = r.coverage;
             extra_viol = r.violations;
         }
+        "C07" => {
+            let r = layerb::run_c07_processes(tier, batch_seed);
+            extra_cov = r.coverage;
+            extra_viol = r.violations;
+        }
         "C16" => {
             let r = layerb::run_c16_processes(tier, batch_seed);
-            extra_cov = r.coverage;
+            if let (J::Obj(a), J::Obj(b)) = (&mut extra_cov, r.coverage) {
+                a.extend(b);
+            }
             extra_viol = r.violations;
         }
         _ => {}
     }
+    extra_viol.extend(audit_viol);
     finish_check(prop, tier, batch_seed, t0, main, audit, extra_cov, extra_viol)
 }
 
@@ -381,6 +423,24 @@ fn replay_main(path: &str) -> i32 {
     if doc.get("layer_b").is_some() {
         return layerb::replay(&doc, &id);
     }
+    let clause0 = doc.str_of("clause");
+    if (clause0 == "abort" || clause0 == "hang") && std::env::var("SYLT_SIM_REPLAY_INNER").is_err() {
+        // the process dying or spinning IS the violation: watch it from outside
+        let (outcome, detail) = supervisor::run_replay_inner(path, 20);
+        let got = match outcome.as_str() {
+            "hang" => "hang/cpu-budget".to_string(),
+            "exit" => String::new(),
+            other => format!("abort/{}", other),
+        };
+        if got == id {
+            println!("REPRODUCED {}", id);
+            println!("{}", detail);
+            println!("VIOLATION property={} replay={}", prop, path);
+            return 1;
+        }
+        println!("NOT-REPRODUCED {} (the inner run ended with: {} {})", id, outcome, detail);
+        return 0;
+    }
     let c = match doc.get("scenario").map(Concrete::from_json) {
         Some(Ok(c)) => c,
         _ => {
@@ -397,6 +457,24 @@ fn replay_main(path: &str) -> i32 {
     let h = std::thread::Builder::new().stack_size(256 << 20).spawn(move || {
         exec::install_panic_hook();
         exec::set_root(&scratch);
+        if let Some(a) = extra.get("audit_history") {
+            // the same run after two different worker histories (16 and 5 workers)
+            let (seed, x) = (a.u64_of("verif_seed"), a.u64_of("index"));
+            let p1 = prop2.clone();
+            let p2 = prop2.clone();
+            let a16 = exec::in_fresh_thread(move || worker::audit_pair_after_history(&p1, seed, x % 16, 16, x));
+            let a5 = exec::in_fresh_thread(move || worker::audit_pair_after_history(&p2, seed, x % 5, 5, x));
+            exec::clean_root(&scratch);
+            let _ = std::fs::remove_dir(&scratch);
+            return if a16 != a5 {
+                Some(props::Violation { prop: prop2.clone(), clause: "history".into(), class: "previous-compilations-in-process".into(), detail: format!("run {} gives history {:x?} after the compilations a 16-worker batch ran before it in the same thread, and {:x?} after those of a 5-worker batch", x, a16, a5) })
+            } else {
+                None
+            };
+        }
+        if let Some(hst) = extra.get("worker_history") {
+            worker::rerun_worker_history(&prop2, hst.u64_of("verif_seed"), hst.u64_of("start"), hst.u64_of("stride"), hst.u64_of("index"), false);
+        }
         let r = worker::reproduces(&prop2, &c, &extra, &props::preamble_text(), &id2);
         exec::clean_root(&scratch);
         let _ = std::fs::remove_dir(&scratch);
@@ -455,6 +533,27 @@ fn main() {
         "gen" => {
             let (c, extra, trace, fam) = worker_scenario(&args[2], env_u64("VERIF_SEED", 1), args[3].parse().unwrap());
             println!("{}", J::obj().set("family", J::s(&fam)).set("scenario", c.to_json()).set("extra", extra).set("faults", trace).to_pretty());
+            0
+        }
+        "corpus-obs" => {
+            // one line per corpus main: verdict and the located errors (used to compare two trees)
+            exec::install_panic_hook();
+            let scratch = format!("{}/{}-obs", supervisor::scratch_base(), std::process::id());
+            let _ = std::fs::create_dir_all(&scratch);
+            exec::set_root(&scratch);
+            let c = corpus::load();
+            for main in &c.mains {
+                let mut cc = Concrete::new(main);
+                cc.files = c.project_of(main);
+                let out = exec::execute(&cc);
+                let desc = match &out.result {
+                    exec::ResultObs::Ok => format!("OK {}", out.sink_bytes.len()),
+                    exec::ResultObs::Panicked => format!("PANIC {:?}", out.panic.as_ref().map(|p| p.key())),
+                    exec::ResultObs::Err(es) => es.iter().map(|e| format!("{}@{}:{}", e.variant, e.file.rsplit('/').next().unwrap_or(""), e.line)).collect::<Vec<_>>().join(" "),
+                };
+                println!("{} => {}", main, desc);
+            }
+            let _ = std::fs::remove_dir_all(&scratch);
             0
         }
         "depths" => {
